@@ -1059,6 +1059,12 @@ impl Rt {
         // be accessible from Roto.
         for field in &description.fields {
             self.find_type(field.type_id, field.type_name)?;
+            if self.get_runtime_type(field.type_id).is_none() {
+                return Err(format!(
+                    "Type `{}` of the context field `{}` is not registered in this runtime",
+                    field.type_name, field.name
+                ));
+            }
         }
 
         self.context = Some(description);
